@@ -1236,9 +1236,9 @@ class Gen:
             f, ret = self.PURE_M[(rt, name)]
             al = [self.pure(a, env)[0] for a in args]
             return (f"({f} {rl} {' '.join(al)})", ret)
-        if rt in NATTY and name == "checked_add" and len(args) == 1:
+        if rt in NATTY and name in ("checked_add", "checked_sub") and len(args) == 1:
             al, at_ = self.pure(args[0], env)
-            return (f"(uN_checked_add {BITS[rt]} {rl} {as_nat(al, at_)})", f"Option<{rt}>")
+            return (f"(uN_{name} {BITS[rt]} {rl} {as_nat(al, at_)})", f"Option<{rt}>")
         if rt in NATTY and name in ("saturating_add", "saturating_sub") and len(args) == 1:
             bits = BITS[rt]
             al, at_ = self.pure(args[0], env)
@@ -1612,6 +1612,9 @@ class Gen:
                 return go(i + 1)
 
             def ka(x, t):
+                j_ = len([a_ for a_ in atoms if a_ is not None])
+                if j_ < len(ptys) and ptys[j_] in NATTY:
+                    x = as_nat(x, t)      # an integer literal passed for an unsigned parameter
                 atoms.append(x)
                 return go(i + 1)
             return self.tr(real[i], env, ka, ret)
@@ -1889,6 +1892,14 @@ class Gen:
                 if e[0] == "call" and e[1][0] == "var" and (self.cur_ns, e[1][1]) in self.sigs and self.sigs[(self.cur_ns, e[1][1])][1] == "()":
                     # a translated check called for its panic only (`when_not_paused(e);`)
                     return self.tr(e, env, lambda a, t: go(i + 1, env), ret)
+                if e[0] == "call" and e[1][0] == "path" and len(e[1][1]) == 2:
+                    tgt_ = getattr(self, "impl_types", {}).get(e[1][1][0]) or (self.cur_ns if e[1][1][0] == "Self" else None)
+                    nm_ = e[1][1][1]
+                    if isinstance(tgt_, tuple):
+                        tgt_, nm_ = tgt_[0], tgt_[1] + nm_
+                    if tgt_ and (tgt_, nm_) in self.sigs and self.sigs[(tgt_, nm_)][1] == "()" and (tgt_, nm_) not in getattr(self, "writers", set()):
+                        # `Type::check(e, ..);`: a translated reader called for its panic only
+                        return self.tr(e, env, lambda a, t: go(i + 1, env), ret)
             if s[0] == "expr":
                 e = self.strip(s[1])
                 if e[0] == "if":
@@ -2366,6 +2377,13 @@ READS_SA = {"SmartAccount": {"valid_context_rules": ("fn", ["Ctx"], "Vec<Context
 FILES_SA = [("SmartAccount", "packages/accounts/src/smart_account/mod.rs", []),
             ("SmartAccount", "packages/accounts/src/smart_account/storage.rs",
              ["get_authenticated_signers", "can_enforce_all_policies", "get_validated_context", "validate_signers_and_policies"])]
+STORE_NFTF = {"NftF": {"Owner": (["u32"], "Address"), "Balance": (["Address"], "u32"),
+                       "Approval": (["u32"], "ApprovalData", "temp"), "ApprovalForAll": (["Address", "Address"], "u32", "temp")}}
+READS_NFTF = {"NftF": {"ledger_sequence": "u32", "min_temp_ttl": "u32", "max_ttl": "u32", "authorized": "addr2bool"}}
+FILES_NFTF = [("NftF", "packages/tokens/src/non_fungible/storage.rs",
+               ["balance", "owner_of", "get_approved", "is_approved_for_all", "transfer", "transfer_from", "approve", "approve_for_all",
+                "update", "approve_for_owner", "check_spender_approval", "increase_balance", "decrease_balance", "mint"]),
+              ("NftF", "packages/tokens/src/non_fungible/extensions/burnable/storage.rs", ["burn", "burn_from"])]
 STORE_RT = {"RoleTransfer": {"Pending": ([], "Address", "temp"), "Active": ([], "Address")}}
 READS_RT = {"RoleTransfer": {"ledger_sequence": "u32", "min_temp_ttl": "u32", "max_ttl": "u32", "authorized": "addr2bool"}}
 FILES_RT = [("RoleTransfer", "packages/access/src/role_transfer/storage.rs", ["transfer_role", "accept_transfer"])]
@@ -2921,6 +2939,9 @@ def main():
                             impl_types={"Base": "AllowTok", "AllowList": ("AllowTok", "al_")},
                             fn_prefix={"packages/tokens/src/fungible/extensions/allowlist/storage.rs": "al_"},
                             rename_types={"AllowanceData": "AllowTok.AllowanceData", "AllowanceKey": "AllowTok.AllowanceKey"})
+        elif "--nft-full" in sys.argv:
+            txt = translate(repo, FILES_NFTF, imports=("OZ.Model.RustSemHost",), reads=READS_NFTF, structs=STRUCTS_NFT, store=STORE_NFTF,
+                            impl_types={"Base": "NftF"}, rename_types={"ApprovalData": "NftF.ApprovalData"})
         elif "--nft-ttl" in sys.argv:
             txt = translate(repo, FILES_NFTT, imports=("OZ.Model.RustSemHost",), reads=READS_NFTT, structs=STRUCTS_NFT, store=STORE_NFTT,
                             impl_types={"Base": "NftT"}, rename_types={"ApprovalData": "NftT.ApprovalData"})
